@@ -1,7 +1,112 @@
-/- placeholder driver for C15: replaced when the model is built -/
-import AcnModel.Wire
-open Lean Acn.Wire
+/-
+  Driver for C15 (generated sessions).  One request per line:
+    {"op":"docs","start":f,"period":f,"V":f,"maxp":f,"max_len":int|null,"ff":bool,"bp":BP|null,
+     "pilot":f,"nmax":nat,"docs":[{"c":f,"d":f,"kwh":f,"sid":str,"space":str}…]}
+    {"op":"samples","period":f,"V":f,"maxp":f,"max_len":f|null,"ff":bool,"bp":BP|null,
+     "pilot":f,"nmax":nat,"days":[[[a,d,e]…]…]}
+    {"op":"fit","E":f,"T":f,"V":f,"P":f,"n":nat}
+  BP = {"type":"ideal"|"two","capfn":null|"fit"|[a,b,c,d],"noise":f,"ts":f,"calc":str}
+  (f = IEEE bit pattern of a double).  Answers are canonical: EVs in input order, events
+  sorted by (arrival, session).
+-/
+import AcnModel.WireModels
+import AcnModel.Sessions
+open Lean Acn Acn.Wire Acn.Battery Acn.Evse Acn.Sessions
 
-def handle (_ : Json) : Except String Json := throw "driver for C15 not built yet"
+def errStr : Sessions.Err → String
+  | .zeroDivision => "Other:ZeroDivisionError"
+  | .valueError => "ValueError"
+  | .recursion => "Other:RecursionError"
+
+def fitF : CapFn Float := fun E T V P => battCapFnGen E T V P
+
+def parseBP (j : Json) : Except String (BattParams Float) := do
+  if j.isNull then return defaultParams
+  let t ← getStr j "type"
+  let cf ← j.getObjVal? "capfn"
+  let capFn : Option (CapFn Float) ←
+    if cf.isNull then pure none
+    else match cf with
+      | .str _ => pure (some fitF)
+      | _ => do
+        let c ← asFs cf
+        match c with
+        | [a, b, c, d] => pure (some (fun (E _T _V _P : Float) => .ok (a * E + b, c * E + d)))
+        | _ => throw "capfn: expected 4 coefficients"
+  let noise ← getF j "noise"
+  let ts ← getF j "ts"
+  let cstr ← getStr j "calc"
+  pure { type := if t == "two" then .twoStage else .ideal, capFn, noise, ts,
+         cmode := if cstr == "stepwise" then .stepwise else .continuous }
+
+/-- energy taken by the battery when charged at `pilot` for `n` periods (`null` on error or when
+    the capacity is not positive) -/
+def fullCharge (b : Batt Float) (pilot V P : Float) (n : Nat) : Json :=
+  if 0 < b.capacity then
+    match chargeN b pilot V P n with
+    | .ok b' => jF (b'.charge - b.init)
+    | .error _ => Json.null
+  else Json.null
+
+def jEvC (pilot V P : Float) (nmax : Nat) (e : Ev Float) : Json :=
+  let n := (e.departure - e.arrival).toNat
+  Json.mkObj [("session", jS e.session), ("station", jS e.station), ("arrival", jI e.arrival),
+    ("departure", jI e.departure), ("est", jI e.estDeparture), ("requested", jF e.requested),
+    ("cap", jF e.batt.capacity), ("init", jF e.batt.init), ("maxp", jF e.batt.maxPower),
+    ("two", jB e.batt.twoStage), ("ts", jF e.batt.ts), ("noise", jF e.batt.noiseLevel),
+    ("full", if e.arrival ≤ e.departure ∧ n ≤ nmax then fullCharge e.batt pilot V P n else Json.null)]
+
+def insertEv (x : Int × String) : List (Int × String) → List (Int × String)
+  | [] => [x]
+  | y :: ys => if x.1 < y.1 ∨ (x.1 = y.1 ∧ x.2 ≤ y.2) then x :: y :: ys else y :: insertEv x ys
+
+def answer (pilot V P : Float) (nmax : Nat) : Except Sessions.Err (List (Ev Float)) → Json
+  | .error e => Json.mkObj [("err", jS (errStr e))]
+  | .ok evs =>
+    let evts := (pluginEvents evs).foldr insertEv []
+    Json.mkObj [("err", Json.null), ("evs", jList (jEvC pilot V P nmax) evs),
+      ("events", jList (fun (p : Int × String) => Json.arr #[jI p.1, jS p.2]) evts)]
+
+def parseDoc (j : Json) : Except String (Doc Float) := do
+  pure { connect := ← getF j "c", disconnect := ← getF j "d", kWh := ← getF j "kwh",
+         session := ← getStr j "sid", space := ← getStr j "space" }
+
+def parseSample (j : Json) : Except String (Sample Float) := do
+  match ← asFs j with
+  | [a, d, e] => pure { arrival := a, duration := d, energy := e }
+  | _ => throw "sample: expected 3 numbers"
+
+def handle (j : Json) : Except String Json := do
+  let op ← getStr j "op"
+  if op == "fit" then
+    let E ← getF j "E"; let T ← getF j "T"; let V ← getF j "V"; let P ← getF j "P"
+    let n ← getNat j "n"
+    match (battCapFnGen E T V P : Except Sessions.Err (Float × Float)) with
+    | .error e => pure (Json.mkObj [("err", jS (errStr e))])
+    | .ok (cap, init) =>
+      let ts : Float := ratK Gen.fitTransitionSoc
+      let (_, _, s0) := closedInitSoc (ratK Gen.fitMaxRate) ts E T V P cap
+      let maxp : Float := ratK Gen.fitMaxRate * V / (1000 : Nat)
+      let full := match mkTwoStage cap init maxp 0 ts .continuous with
+        | .ok b => fullCharge b (ratK Gen.fitMaxRate) V P n
+        | .error _ => Json.null
+      pure (Json.mkObj [("err", Json.null), ("cap", jF cap), ("init", jF init),
+        ("closed", jB (decide (ts ≤ s0))), ("full", full)])
+  else
+    let period ← getF j "period"; let V ← getF j "V"; let maxp ← getF j "maxp"
+    let ff ← getBool j "ff"
+    let bp ← parseBP (← j.getObjVal? "bp")
+    let pilot ← getF j "pilot"
+    let nmax ← getNat j "nmax"
+    if op == "docs" then
+      let start ← getF j "start"
+      let maxLen ← getOpt j "max_len" (fun v => v.getInt?)
+      let docs ← (← getArr j "docs").mapM parseDoc
+      pure (answer pilot V period nmax (getEvs start docs period V maxp maxLen bp ff))
+    else if op == "samples" then
+      let maxLen ← getOpt j "max_len" asF
+      let days ← (← getArr j "days").mapM fun d => do (← asArr d).mapM parseSample
+      pure (answer pilot V period nmax (convertMatrix (shiftDays days) period V maxp maxLen bp ff))
+    else throw s!"unknown op {op}"
 
 def main : IO Unit := runDriver handle
